@@ -295,6 +295,8 @@ def _run_comp(case):
     com = top0.mean(0)
     exp = com + (Rref @ (leaves0 - com).T).T
     resid["rigid_pos"] = fnum(np.abs(leaves1 - exp).max() / (np.abs(exp).max() + scale))
+    if case["seed"][-1] % 3 == 0:      # zero / integer components are translations too
+        t = [t[0], 0, t[2]] if case["seed"][-1] % 2 else [0, t[1], 0.0]
     tr = comp.translated(t)
     tr_b = comp.translated(*t)
     l2 = np.array([s.center for s in _leaves(tr)], dtype=float)
